@@ -415,14 +415,23 @@ def run_misc(spec):
         out = kb.gram_schmidt(inputs)
         O = np.array([op.dense_of(o) for o in out]).reshape(len(out), op.n)
         G = O.conj() @ O.T
-        tol_g = 1e-13 / eps * 10 * max(1, len(out))
-        require(np.linalg.norm(G - np.eye(len(out))) <= max(tol_g, 1e-12), 'gram_schmidt-not-orthonormal', '|G - 1| = %r for %d vectors (eps = %g)' % (np.linalg.norm(G - np.eye(len(out))), len(out), eps), eps=eps)
-        if eps >= 1e-3:
-            require(len(out) == rank, 'gram_schmidt-rank', '%d vectors returned, rank %d' % (len(out), rank), eps=eps)
+        # conditioning of the inputs: modified Gram-Schmidt loses orthogonality ~ eps_machine * sigma_1 / sigma_k
+        sv = np.linalg.svd(np.array(dense).reshape(len(dense), op.n), compute_uv=False)
+        k = len(out)
+        if k == 0 or k > len(sv):
+            require(k <= len(sv), 'gram_schmidt-rank', '%d vectors returned for %d inputs' % (k, len(sv)), eps=eps)
+        sk = sv[k - 1] if 0 < k <= len(sv) else sv[-1]
+        if sk < 1e-9 * sv[0]:
+            raise Skip()  # the rank decision itself is at the rounding level for this (randomly ill-conditioned) input
+        cond = sv[0] / sk
+        tol_g = 1e-14 * cond * 50 * max(1, k)
+        require(np.linalg.norm(G - np.eye(k)) <= max(tol_g, 1e-12), 'gram_schmidt-not-orthonormal', '|G - 1| = %r for %d vectors (condition number of the inputs %.1e)' % (np.linalg.norm(G - np.eye(k)), k, cond), eps=eps)
+        num_rank = int(np.sum(sv > 1e-9 * sv[0]))
+        require(k == num_rank or (k < len(sv) and sv[k] > 1e-13 * sv[0]), 'gram_schmidt-rank', '%d vectors returned, numerical rank %d (singular values %r)' % (k, num_rank, sv), eps=eps)
         # span: every input lies in the span of the output (up to the conditioning)
         for d in dense:
             r = d - O.T @ (O.conj() @ d)
-            require(np.linalg.norm(r) <= max(1e-12 / eps * 10, 1e-10), 'gram_schmidt-span', 'input not in the span of the result: residual %r' % np.linalg.norm(r), eps=eps)
+            require(np.linalg.norm(r) <= max(1e-13 * cond * 50, 1e-10), 'gram_schmidt-span', 'input not in the span of the result: residual %r' % np.linalg.norm(r), eps=eps)
         classes.append('gram_schmidt:%d' % len(out))
         # --- wrappers
         lin = NpcOp(op)
